@@ -47,6 +47,9 @@ structure St where
   stLive : List Nat := []
   stLogged : Nat := 0
   stBlocked : Bool := false
+  -- data written since the last end of message; part of that message flushed already
+  stInMsg : Bool := false
+  stTorn : Bool := false
   deriving Inhabited
 
 /-- bytes as text: `-` empty, hex up to 96 bytes, else `<len>:<adler32 parts>` -/
@@ -287,7 +290,7 @@ def xdrain (q : DecodeQueue) : Nat → Nat → List String → Res (DecodeQueue 
 def stNew (s : St) (name : String) (mode : Nat) : St × String :=
   match Variant.ofName name with
   | some v =>
-    ({ s with txq := { codec := some (.cobs v) }, txWire := [], moved := 0, loaded := 0, stSent := [], stCur := [], stGot := 0, stReady := true, stMode := mode, stLive := List.range 9, stLogged := 0, stBlocked := false },
+    ({ s with txq := { codec := some (.cobs v) }, txWire := [], moved := 0, loaded := 0, stSent := [], stCur := [], stGot := 0, stReady := true, stMode := mode, stLive := List.range 9, stLogged := 0, stBlocked := false, stInMsg := false, stTorn := false },
      stLine "ok")
   | none => (s, "bad-op")
 
@@ -345,20 +348,29 @@ def step (s : St) (w : List String) : St × String :=
     | some bytes =>
       if bytes.isEmpty then (s, "bad-op") else
       match streamPush s.txq (some bytes) (2 * bytes.length + 8) with
-      | .ok (q, true) => ({ s with txq := q, stCur := s.stCur ++ bytes }, stLine s!"ok n={bytes.length}")
+      | .ok (q, true) => ({ s with txq := q, stCur := s.stCur ++ bytes, stInMsg := true }, stLine s!"ok n={bytes.length}")
       | .ok (q, false) => ({ s with txq := q }, s!"R model-short | C - | I - | S ok n={bytes.length} ; *")
       | x => (s, s!"R model-{resName x} | C - | I - | S ok n={bytes.length} ; *")
     | none => (s, "bad-op")
   | ["st", "term"] =>
     if !s.stReady then (s, "bad-op") else
     match streamPush s.txq none 8 with
-    | .ok (q, true) => ({ s with txq := q, stSent := s.stSent ++ [s.stCur], stCur := [] }, stLine "ok")
+    | .ok (q, true) => ({ s with txq := q, stSent := s.stSent ++ [s.stCur], stCur := [], stInMsg := false, stTorn := false }, stLine "ok")
     | .ok (q, false) => ({ s with txq := q }, "R model-refused | C - | I - | S ok ; *")
     | x => (s, s!"R model-{resName x} | C - | I - | S ok ; *")
   | ["st", "flush"] =>
     if !s.stReady then (s, "bad-op") else
     match queueTake s.txq s.txq.st.done with
-    | .ok (q, out) => ({ s with txq := q, txWire := s.txWire ++ out }, stLine "ok")
+    | .ok (q, out) => ({ s with txq := q, txWire := s.txWire ++ out, stTorn := s.stTorn || s.stInMsg }, stLine "ok")
+    | x => (s, s!"R model-{resName x} | C - | I - | S ok ; *")
+  | ["st", "abort"] =>
+    if !s.stReady then (s, "bad-op") else
+    if !s.stInMsg ∨ s.stTorn then (s, stLine "skipped") else
+    -- the message in progress is gone, the finished ones stay
+    match queueDel s.txq 1 with
+    | .ok o =>
+      if o.ret < 0 then ({ s with txq := o.q }, "R model-refused | C - | I - | S ok ; *")
+      else ({ s with txq := o.q, stCur := [], stInMsg := false }, stLine "ok")
     | x => (s, s!"R model-{resName x} | C - | I - | S ok ; *")
   | ["st", "deliver", n] =>
     if !s.stReady then (s, "bad-op") else
@@ -430,7 +442,10 @@ def step (s : St) (w : List String) : St × String :=
       let frames := (splitFrames s.fin).1
       let need := if s.cur.isEmpty then k else k - 1
       let keep := (frames.take (frames.length - need)).flatten
-      let spec := s.variant.isSome ∧ s.early = 0
+      -- removing a message of which a part has left the queue already tears the stream: outside the property
+      let torn := !(splitFrames s.wire).2.isEmpty
+      let misuse := need ≤ frames.length ∧ ((need > 0 ∧ need = frames.length ∧ torn) ∨ (!s.cur.isEmpty ∧ s.early > 0))
+      let spec := s.variant.isSome ∧ s.early = 0 ∧ !misuse
       let alts :=
         if !spec then "* ; *"
         else if need ≤ frames.length then s!"ok ; fin={showB keep}"
@@ -442,6 +457,7 @@ def step (s : St) (w : List String) : St × String :=
           let fd := min s.fdone o.q.st.done
           let gone := if s.eq.codec.isSome then ((s.eq.ring.content.take (min s.fdone s.eq.ring.len)).count 0) - ((o.q.ring.content.take (min fd o.q.ring.len)).count 0) else 0
           ({ s with eq := o.q, pending := [], cur := [], early := 0, fdone := fd, sent := s.sent - gone,
+                    variant := if misuse then none else s.variant,
                     fin := if spec then keep else s.fin.take fd, sentMsgs := s.sentMsgs.take (s.sentMsgs.length - gone) },
            eqLine "ok" o.q fd (errName o.ret) alts)
       | x => (s, eqLine s!"model-{resName x}" s.eq s.fdone (resName x) alts)
